@@ -184,6 +184,32 @@ CHECKS["C15"] = dict(
     design_ref="DESIGN.md section 3 / C15",
 )
 
+CHECKS["C07"] = dict(
+    category="other",
+    text=("Clause-level: (H1) every hash invocation of the library - sessions on hasher values enumerated over the MIR CFG paths, buffers resolved to their "
+          "layouts across the functions that fill them - is one of the reference preimages transcribed from RFC 8554 (K, Q, leaf, interior node, chain step) or the "
+          "hash-sigs derivation: order, static widths, u32/u16/u8 big-endian encodings, separator values, buffer offsets; no hasher is left half-absorbed; (H2) each RFC "
+          "preimage occurs on the signing and on the verifying side; (H3) every byte serialiser matches a reference layout composed bottom-up (LM-OTS signature, LMS "
+          "public key, LMS signature, signed public key, HSS signature, HSS public key); (H4) the count field is levels - 1; (H5) every randomizer handed to the LM-OTS "
+          "signer is the seed-derived value with index 0xfffd, inside the level loop derived from that iteration's child seed; (H6) the (type -> w, p, ls) and (type -> h) "
+          "tables equal Appendix B / section 5.1. NOT decided: byte equality with an independent signer on concrete inputs."),
+    note="Known finding F7 (ls for three rows) is listed for C07 as well. Trusts the RFC transcription in rules/hlref.py.",
+    technique="hash-session extraction over MIR CFG paths with interprocedural buffer layouts matched against reference preimages; bottom-up classification of serialiser append sequences; expression-DAG and intra-iteration dependence rules; reference tables",
+    design_ref="DESIGN.md section 3 / C07",
+)
+CHECKS["C08"] = dict(
+    category="other",
+    text=("Clause-level: (K1) the closed-world preimage rule of C07-H1 plus presence of the hash-sigs derivation preimages: the PRNG block I@0 || u32 q@16 || u16 j@20 || "
+          "0xff@22 || seed@23 hashed as the whole 55-byte block, the top-seed block with D_TOPSEED and which = 0/1/2, the chain-start derivation; (K2) derivation constants "
+          "evaluated from the source; (K3) child seed = first, child I = first 16 bytes of the second output of one derivation object with index 0xfffe and the parent leaf; "
+          "(K4) the key blob serialiser appends u64-BE counter || 8 parameter bytes || seed and the parser reads 8, 8, n and decodes big-endian; (K5) parameter byte = "
+          "(LMS << 4) + LM-OTS, decoded with >> 4 and & 0x0f, padding and end marker 0xff; (K6) public-key layout; (K7) every hash implementation returns the first "
+          "OUTPUT_SIZE bytes of the underlying output. NOT decided: byte identity with the external hash-sigs tool."),
+    note="Pins the derivation and encoding of the current tree against the transcribed reference; any consistent change on signer and loader side is still a mismatch with the table.",
+    technique="hash-session extraction with interprocedural buffer layouts matched against hash-sigs reference preimages; evaluated constants; expression-DAG rules; writer/reader agreement",
+    design_ref="DESIGN.md section 3 / C08",
+)
+
 NOT_APPLICABLE = {
     "C01": ("Round-trip completeness (sign then verify succeeds) is equality of two computations over runtime values "
             "(message, seed, counter, 6x4x5^L parameter shapes); no dataflow/typestate fact bounds it. Its structural "
